@@ -84,6 +84,79 @@ PROPS = {
             "the message text rendered by Display for ShapeSet (only panic-freedom is proved)",
         ],
     },
+    "C19": {
+        "units": ["c19_usage"],
+        "level_text": "Every hand-written UsesTypeParams impl of core/src/usage/type_params.rs (Ident, Type, TypePath, Path, PathArguments, GenericArgument, ReturnType, "
+                      "TypeParamBound, WherePredicate, Data, Fields, (), Option<T>, Vec<T>, Punctuated<T,U>), the blanket collect_type_params/_cloned, the trait default "
+                      "uses_type_params_cloned, union_in_place, Options::from/include_type_path_qself and codegen::compute_impl_bounds are proved by Verus on their real bodies "
+                      "(sliced each run, compiled against field-name-compatible mirrors of the syn types) to return exactly the usage oracle written from the statement: "
+                      "leading un-`::`-qualified segment in the set, union over generic arguments, through ref/ptr/slice/array/paren/group/tuple/fn/trait-object/impl-trait, "
+                      "qualified-self only for Purpose::Declare, collection = union of members; a proved lemma family shows every answer is a subset of the queried set. "
+                      "compute_impl_bounds: where-clause, angle tokens, lifetime/const params unchanged, each type param gains exactly the plain trait bound at the end of "
+                      "its bound list iff its ident is in applies_to.",
+        "level_note": "Proof for all mirrored syntax trees, purposes and sets. Generic impls are proved per instantiation the walk uses (Verus rejects the trait-dictionary cycle). "
+                      "The 24 uses_type_params! impls are assumed contract stubs, so recursion through them is by assumption (finite trees). R2 loop rewrites keep closure bodies verbatim; "
+                      "a restructuring refactor of a fold can lose an anchor (exit 2).",
+        "design_ref": "DESIGN.md section 6 C19",
+        "assumptions": [
+            "the 24 impls generated by uses_type_params!(Ty, field..) are contract stubs (prelude/usage_macro_stubs.vrs): each returns the named field's answer (rule 1) resp. the union of the fields' answers (rule 2), as the macro text says",
+            "syn types are mirrored (prelude/usage_syn.vrs) with exactly the fields the code reads, under syn's names; Punctuated is its value sequence; &Fields iterates its fields in order; enums have exactly the variants the code names (Type: all 15 of syn 2.0), so `_ => panic!` arms are unreachable by construction",
+            "Ident is opaque; == is equality of the abstract value (syn: same text, spans ignored)",
+            "IdentSet/IdentRefSet (FnvHashSet) are opaque with a ghost Set<Ident> view; default/with_capacity_and_hasher = empty, extend = union, insert, contains, iter() yields exactly the members, into_iter().cloned().collect() keeps the members (std HashSet contracts, assumed)",
+            "TypeParamBound::clone yields an equal value (syn derive)",
+            "R2: `.into_iter().fold(init, |state, value| ..)`, `.iter().fold(..)`, `.iter().filter(|v| ..).collect()`, `for p in x.iter_mut()` are replaced by their defining index loops; closure/loop bodies are spliced verbatim",
+            "R15: trait-impl methods are verified as inherent methods of the mirror type, or as methods of a local mirror trait where the receiver is a std type (Option, Vec, (), &Punctuated)",
+            "derive(PartialEq) on Purpose is written out as a structural match and proved equal to ==",
+        ],
+        "not_covered": [
+            "the 24 macro-generated impls (uses_type_params! is defined in macros_public.rs but invoked in usage/type_params.rs; the multi-field rule uses $(..),+): a mutation of an invocation is not detected",
+            "TraitImpl::used_type_params / type_params_matching / type_params_in_fields / declared_type_params (skip filters) - 'used by fields that are actually parsed (not skipped)' is covered only from applies_to onward",
+            "OuterFromImpl::wrap token emission (generics.split_for_impl, quote!) and the FromMeta impl's own bound placement",
+            "UsesTypeParams impls outside usage/: ast::Data<V,F>, ast::Fields<T>, codegen::Field, codegen::Variant, util::Ignored",
+            "usage/lifetimes.rs (UsesLifetimes, CollectLifetimes) entirely; GenericsExt::declared_type_params/declared_lifetimes",
+            "positions the mirrors do not model: the <..> of an associated-type binding or constraint (AssocType.generics: `dyn Tr<Gat<T> = u8>` is answered [] by the real code too - reported as an observation in DESIGN.md), array lengths and const-argument expressions, type macros",
+        ],
+    },
+    "C15": {
+        "units": ["c15_routing"],
+        "classes": r"postcondition|post-condition of closure|assertion failed",
+        "level_text": "The real default bodies of all ten FromMeta methods are proved (Verus, any implementer, any subset of overrides) against default_ensures in call_ensures form: "
+                      "each item goes by its form alone to exactly one hook (word / split list / bool, string, char literal / literal / expression), groups are looked through, "
+                      "every default hook rejects with the documented kind, and the result is res_with_span(hook result, item span). Nine probe implementers (all, none, each single hook) "
+                      "turn this into concrete facts result == table(item) for every item, incl. groups of any depth by induction; unexpected_lit_type/unexpected_expr_type/"
+                      "unknown_lit_str_value/From<syn::Error> proved on their real bodies.",
+        "level_note": "Routing half only. Token-stream splitting (parse_meta_list, Parse/ToTokens for NestedMeta, round trip) is uninterpreted: not applicable to contracts (syn parser combinators). "
+                      "The 2^7 override subsets are covered by the generic default_ensures; probes guard against vacuity. Termination of from_expr on nested groups not proved.",
+        "design_ref": "DESIGN.md section 6 C15",
+        "assumptions": [
+            "syn mirror (prelude/meta_syn.vrs): variant/field shape of Meta, Expr (40 variants, syn 2.0.119), Lit copied from syn; payloads opaque; spans, LitStr/LitChar::value, clone and parse_meta_list are uninterpreted functions of the node",
+            "R17: Verus rejects a postcondition mentioning its own function, so the recursive Self::from_expr call of the default from_expr is tagged assume(expr_hook_rel(arg, result)) and axiom_expr_hook_rel states that such a result satisfies T::from_expr's postcondition",
+            "#[verifier::exec_allows_no_decreases_clause] on the default from_expr (no decreases for trait default methods in Verus): termination not proved",
+            "R10/R12/R18 A-normalisation: match result and map_err result let-bound with proof hints; &X?[..] -> as_slice; `?` on syn::Result spelled out as match + Error::from (R15 inherent twin of From<syn::Error>)",
+            "R3: closures |e| e.with_span(x) get a type and an ensures that is proved against the closure body",
+            "probe hooks are external_body functions returning uninterpreted h_x::<P>(arg) (test doubles only)",
+        ],
+        "not_covered": ["splitting half of C15 (syn parser / printer): parse_meta_list, Parse/ToTokens for NestedMeta, print-parse round trip", "termination of from_expr"],
+    },
+    "C12": {
+        "units": ["c12_wrappers", "c12_override_expr"],
+        "classes": r"postcondition|post-condition of closure|assertion failed|precondition not satisfied",
+        "level_text": "Every FromMeta method of Option<T>, darling Result<T>, Result<T,Meta>, Box/Rc/Arc/RefCell<T> (macro instances), Override<T>, SpannedValue<T>, WithOriginal<T,Meta>, Flag, (), bool "
+                      "is proved on its real body, for every T and item, in the form exists r0. call_ensures(T::hook, args, r0) && r == wrap(r0) (from_none likewise; SpannedValue span = path | list tokens | value expr; "
+                      "WithOriginal.original == *item; Result never Err). Probe-instantiated checks prove for PAll/PNone that every item form through each wrapper equals wrap(what T itself returns), and the absent-item behaviour of all wrappers.",
+        "level_note": "Override<T> for name=value items is its own obligation (unit c12_override_expr): it failed on the pinned tree (F2) and holds since fix commit b99d737. "
+                      "SpannedValue adds the item's span to a spanless error of T (as C03 demands); otherwise errors are T's unchanged. IdentString/AtomicBool not included.",
+        "design_ref": "DESIGN.md section 6 C12",
+        "assumptions": [
+            "FromMeta default methods are seen through the default_ensures proved in unit c15_routing (prelude/frommeta_trait.vrs stubs)",
+            "syn mirror and R17 axiom as for C15",
+            "R4: .map(Some/Ok/Box::new/Rc::new/Arc::new/RefCell::new) -> closure with an ensures proved against its body; |_| closures get a named, typed parameter",
+            "Result::or_else contract (std, assumed); str::parse::<bool> modelled by parse_bool: exactly \"true\"/\"false\" (std, assumed)",
+            "RefCell is opaque: RefCell::new(v) == refcell_of(v) (uninterpreted); Box/Rc/Arc use vstd's transparent model (*p == v)",
+            "R8: smart_pointer_t!/with_original! instances are instantiated by tools/extract from darling's own macro_rules",
+        ],
+        "not_covered": ["IdentString, AtomicBool", "SpannedValue/WithOriginal impls of the other From* traits", "Override<T> helper methods (as_ref, unwrap_or, ..)", "two-level compositions beyond Box<Option<_>>"],
+    },
     "C07": {
         "units": [],
         "gen": [{"corpus": "structs", "mode": "full"}, {"corpus": "enums", "mode": "full"}],
